@@ -126,7 +126,9 @@ impl<const N: usize> Sodg<N> {
         let vtx = self.vertices.get_mut(v).unwrap();
         vtx.persistence = Persistence::Stored;
         vtx.data = d.clone();
-        *self.stores.get_mut(vtx.branch).unwrap() += 1;
+        if vtx.branch != BRANCH_STATIC {
+            *self.stores.get_mut(vtx.branch).unwrap() += 1;
+        }
         #[cfg(debug_assertions)]
         trace!("#put: data of ν{v} set to {d}");
     }
@@ -165,6 +167,9 @@ impl<const N: usize> Sodg<N> {
                 let d = vtx.data.clone();
                 vtx.persistence = Persistence::Taken;
                 let branch = vtx.branch;
+                if branch == BRANCH_STATIC {
+                    return Some(d);
+                }
                 let s = self.stores.get_mut(branch).unwrap();
                 *s -= 1;
                 if *s == 0 {
